@@ -117,8 +117,25 @@ pub fn enforce_of(e: u8) -> ReplacementEnforce { match e { 0 => ReplacementEnfor
 
 /// Builds real sources; CachedSource nodes with the same id share their caches (clones).
 #[derive(Default)]
-pub struct Ctx { pub cached: HashMap<u32, CachedSource<BoxSource>> }
+pub struct Ctx {
+  pub cached: HashMap<u32, CachedSource<BoxSource>>,
+  /// SourceMaps with the same mappings / sources / sourcesContent / names are built as clones of one base value (plus setters for
+  /// file, sourceRoot and debugId), as a program deriving one map from another would: they share their allocations
+  pub maps: Vec<(SMapT, SourceMap)>,
+  /// call observers (source, size) between the replace calls of every ReplaceSource that is built: the same value reached through
+  /// another history
+  pub observed: bool,
+}
 impl Ctx {
+  pub fn build_map(&mut self, m: &SMapT) -> SourceMap {
+    let key = SMapT { file: None, root: None, debug_id: None, ..m.clone() };
+    let base = match self.maps.iter().find(|(k, _)| *k == key) { Some((_, b)) => b.clone(), None => { let b = key.build(); self.maps.push((key, b.clone())); b } };
+    let mut x = base;
+    if m.file.is_some() { x.set_file(m.file.clone()); }
+    if m.root.is_some() { x.set_source_root(m.root.clone()); }
+    if m.debug_id.is_some() { x.set_debug_id(m.debug_id.clone()); }
+    x
+  }
   pub fn build(&mut self, t: &T) -> BoxSource {
     match t {
       T::Raw(s) => RawSource::from(s.clone()).boxed(),
@@ -127,12 +144,12 @@ impl Ctx {
       T::RawBuf(b) => RawBufferSource::from(b.clone()).boxed(),
       T::Orig(s, n) => OriginalSource::new(s.clone(), n.clone()).boxed(),
       T::Sms { text, name, map, orig, inner, remove } => SourceMapSource::new(SourceMapSourceOptions {
-        value: text.clone(), name: name.clone(), source_map: map.build(), original_source: orig.clone(),
-        inner_source_map: inner.as_ref().map(|m| m.build()), remove_original_source: *remove }).boxed(),
+        value: text.clone(), name: name.clone(), source_map: self.build_map(map), original_source: orig.clone(),
+        inner_source_map: inner.as_ref().map(|m| self.build_map(m)), remove_original_source: *remove }).boxed(),
       T::Concat(_) => self.build_concat(t).boxed(),
       T::Replace(i, rs) => {
         let mut r = ReplaceSource::new(self.build(i));
-        for x in rs { r.replace_with_enforce(x.start, x.end, &x.content, x.name.as_deref(), enforce_of(x.enforce)); }
+        for x in rs { r.replace_with_enforce(x.start, x.end, &x.content, x.name.as_deref(), enforce_of(x.enforce)); if self.observed { let _ = r.source(); let _ = r.size(); } }
         r.boxed()
       }
       T::Cached(id, i) => {
@@ -160,6 +177,7 @@ impl Ctx {
     let mut c = ConcatSource::default();
     for (typed, child) in cs {
       if *typed && matches!(child, T::Concat(_)) { c.add(self.build_concat(child)); } else { c.add(self.build(child)); }
+      if self.observed { let _ = c.source(); let _ = c.size(); }
     }
     c
   }
